@@ -1448,6 +1448,12 @@ Section Table.
   Definition sum_exact_ops r R (HR : ops r = Some R) := sum_exact_f R _ _ _ (faithful r R HR).
   Definition euclid_exact_ops r R (HR : ops r = Some R) := euclid_exact_f R _ _ _ (faithful r R HR).
   Definition sum_onehot_ops r R (HR : ops r = Some R) := sum_onehot R _ _ _ (faithful r R HR).
+
+  (* everything at once, for one row of the table *)
+  Definition all_ops r R (HR : ops r = Some R) :=
+    conj (sum_bound_ops r R HR) (conj (dot_bound_ops r R HR) (conj (norm_bound_ops r R HR) (conj (euclid_bound_ops r R HR)
+    (conj (sum_exact_ops r R HR) (conj (dot_exact_ops r R HR) (conj (norm_exact_ops r R HR) (conj (euclid_exact_ops r R HR)
+    (sum_onehot_ops r R HR)))))))).
 End Table.
 
 (** * The notation spelled out; the table of back ends; a concrete instance *)
